@@ -291,6 +291,41 @@ fn exec_adapt(op: &[&str]) -> String {
     if frame.fields_len() != n {
         return "diff:fields_len".into();
     }
+    // ... and stays one while the iterator is stepped from both ends, in every front/back pattern of up
+    // to 6 steps and in the pure patterns up to exhaustion; items come out as in the plain walk
+    let valid = |h: (usize, Option<usize>), left: usize| h.0 <= left && h.1.map_or(true, |x| x >= left);
+    let steps = n.min(6);
+    let mut patterns: Vec<Vec<bool>> = (0..(1u32 << steps)).map(|m| (0..steps).map(|i| m >> i & 1 == 1).collect()).collect();
+    patterns.push(vec![true; n + 1]);
+    patterns.push(vec![false; n + 1]);
+    for pat in &patterns {
+        let mut b = frame.fields();
+        let mut o = frame.clone().into_iter();
+        let (mut lo_i, mut hi_i) = (0usize, n);
+        for (step, back) in pat.iter().enumerate() {
+            let expect = if lo_i < hi_i {
+                let e = if *back { hi_i -= 1; base[hi_i].clone() } else { lo_i += 1; base[lo_i - 1].clone() };
+                Some(e)
+            } else {
+                None
+            };
+            let gb = own(if *back { b.next_back() } else { b.next() });
+            let go = (if *back { o.next_back() } else { o.next() }).map(|(a, x)| (a.to_string(), x));
+            if gb != expect {
+                return format!("diff:fields.mixed-step({step})");
+            }
+            if go != expect {
+                return format!("diff:into_iter.mixed-step({step})");
+            }
+            let left = hi_i - lo_i;
+            if !valid(b.size_hint(), left) {
+                return format!("diff:fields.size_hint-after-mixed-steps:{:?}-for-{left}", b.size_hint());
+            }
+            if !valid(o.size_hint(), left) {
+                return format!("diff:into_iter.size_hint-after-mixed-steps:{:?}-for-{left}", o.size_hint());
+            }
+        }
+    }
     "ok".into()
 }
 
